@@ -256,7 +256,10 @@ fn hist_pid(term: u64, index: u64) -> u64 {
 // ───────────────────────── c19 / c18 over BufferedRaftLog ─────────────────────────
 
 fn compare(o: &OracleRef, step: usize, opname: &str, log: &BufferedRaftLog<MemT>, m: &LogModel, hi: u64, terms: u64, stale_boundary: bool) {
-    let v = |q: &str, arg: u64, model: String, got: String| {
+    // the queried index range must cover both logs entirely: leader-style appends can grow the
+    // log past the length of the generated histories
+    let hi = hi.max(m.last()).max(log.last_entry_id());
+    let v =|q: &str, arg: u64, model: String, got: String| {
         if model != got {
             o.lock().unwrap().violate(
                 "C19",
@@ -768,6 +771,11 @@ async fn run_meta(plan: &LogPlan, o: &OracleRef, root: &std::path::Path) -> Valu
         let sh = r.range(1, 40);
         let old = hs(r.range(1, 1u64 << sh), if r.chance(1, 2) { Some((r.range(1, 9) as u32, r.range(1, 1000))) } else { None });
         let new = hs(old.current_term + r.range(0, 3), Some((r.range(1, 9) as u32, old.current_term + 1)));
+        // the run trace identifies the explored case: the two hard states, every crash image and
+        // what each image decoded to
+        let vf = |h: &HardState| h.voted_for.as_ref().map(|v| ((v.voted_for_id as u64) << 32) ^ v.voted_for_term).unwrap_or(u64::MAX);
+        o.lock().unwrap().trace("pair_old", pair, old.current_term, vf(&old));
+        o.lock().unwrap().trace("pair_new", pair, new.current_term, vf(&new));
         let eng = FileStorageEngine::new(d.clone()).expect("file engine");
         eng.meta_store().save_hard_state(&old).expect("save old");
         let meta_dir = d.join("meta");
@@ -813,7 +821,15 @@ async fn run_meta(plan: &LogPlan, o: &OracleRef, root: &std::path::Path) -> Valu
                     Ok(None) => o.lock().unwrap().violate("C21", "hard_state_missing_after_crash", w),
                     Ok(Some(g)) => {
                         let gv = (g.current_term, g.voted_for);
-                        if gv != (old.current_term, old.voted_for) && gv != (new.current_term, new.voted_for) {
+                        let which = if gv == (new.current_term, new.voted_for) {
+                            1
+                        } else if gv == (old.current_term, old.voted_for) {
+                            0
+                        } else {
+                            2
+                        };
+                        o.lock().unwrap().trace("decoded", which, tear.as_ref().map(|t| t.1 as u64).unwrap_or(u64::MAX), point.len() as u64);
+                        if which == 2 {
                             o.lock().unwrap().violate("C21", "hard_state_neither_old_nor_new", w);
                         }
                     }
